@@ -28,6 +28,21 @@ CHECKS = {
          "For each generated query the exact set of referenced symbols is known by construction; ValidateSymbolsArePublic must accept iff all are public and otherwise name a referenced non-public symbol. The single non-public symbol is drawn uniformly over syntactic occurrences, so deep positions (inside set functions, sub-queries, in/between/contains/null tests, sort fields) are hit as often as shallow ones; the histogram of positions is reported.",
          "Dotted linked symbols are excluded (publicity undefined for them); sub-queries range over a self-link so the store is unambiguous.",
          "DESIGN.md §3 C20"),
+ "C03": (True, "exploration",
+         "stateful property-based testing (rapid, histories generated as data with a model-guided generator): in-memory model of unique/set indexes; invariant = index buckets equal model-derived state after every transaction; failed transactions leave the dump unchanged",
+         "Generated create/update/patch/delete histories (accepted and rejected operations, several per transaction, caller aborts, Db.Batch, hostile values) are executed against the real store and a model; after every transaction the unique indexes (nullable and not) and the set index are compared bucket by bucket and through ReadIndex/SetReadIndex with the model, every entity is re-read, and each rejection must be of the predicted kind and leave the database dump identical.",
+         "Trusts the model (kit/world.go) and bbolt's rollback. 'Changes nothing' is asserted per transaction.",
+         "DESIGN.md §3 C03"),
+ "C04": (True, "exploration",
+         "stateful property-based testing (rapid): model of references over five fk wirings plus a self reference, hostile id universe; invariants = exact back-reference sets and exact survivor sets after delete",
+         "Histories over a target store and six referrer stores (nullable / non-null fk index, fk constraint with cascade none / cascade delete, cascade-delete fk index, self-referencing fk index) with ids containing quotes, backslashes, filter keywords, blanks, brackets, newlines, tabs and a control byte. The model predicts missing-target and null rejections, reference-exists refusals and the exact set of entities removed by a cascade; entities, back-references and (on failure) the whole dump are compared after every transaction.",
+         "Self-reference-only deletes and cascade cycles are skipped as unspecified. Error classes via exported Is* helpers only.",
+         "DESIGN.md §3 C04"),
+ "C05": (True, "exploration",
+         "stateful property-based testing (rapid) with an adjacency/count model read from both sides, plus bounded-exhaustive enumeration of (current set, requested list) pairs for SetLinks",
+         "Histories of all link operations issued from either side (plain and ref-counted collections), entity creates/deletes and links to missing entities; after every transaction GetLinks, IterateLinks, IsLinked, GetLinkCount(s) and the raw buckets of both sides must equal the model and each other. SetLinks is additionally enumerated over every current set x every requested list (with duplicates, any order) of a small universe.",
+         "Negative counts not generated. Trusts the model.",
+         "DESIGN.md §3 C05"),
  "C10": (True, "exploration",
          "property-based testing and fuzzing: grammar sentences with free operand types, token-level mutants, bounded-exhaustive token strings, random runes, foreign-character injections (rapid); native coverage-guided go fuzzing in the thorough tier; oracle = recover-guarded totality + independent rejection rule",
          "Every generated input is pushed through ast.Parse (bolt and in-memory symbol tables), and every query that parses is evaluated through QueryIds, IterateIds, in-memory EvalBool, ValidateSymbolsArePublic and ObjectStore.QueryEntities over an empty store, all-null rows and a rich dataset, all under recover: a panic, or a result that is neither exactly a query nor exactly an error, is a violation. Independently of the parser, a well-typed sentence with one character that occurs in no lexer rule inserted at a token boundary must be rejected. All token strings of length <= 3 (quick) / <= 4 (thorough) over a 41-token alphabet are enumerated.",
